@@ -9,10 +9,12 @@ import (
 	frugal "github.com/Workiva/frugal/lib/go"
 	"os"
 	"sort"
+	"strconv"
 	"strings"
 	"sync"
 	"sync/atomic"
 	"time"
+	"verif/wire"
 
 	"verif/ev"
 	"verif/rig"
@@ -300,6 +302,63 @@ func main() {
 			run.Inconclusive("prompt-reply trial: " + pr.Inconclusive)
 		default:
 			run.Distinct("prompt-reply adapter")
+		}
+		for _, legName := range []string{"adapter", "nats"} {
+			var leg rig.MuxLeg
+			if legName == "adapter" {
+				leg = rig.NewAdapterLeg()
+			} else {
+				leg = rig.NewNatsLeg(nats)
+			}
+			bad, inc := rig.BeyondUint64Trial(leg, 4)
+			run.Eval(1)
+			switch {
+			case bad != "":
+				run.Violation("C01:op-id-beyond-uint64-delivered:"+legName, bad, nil)
+			case inc != "":
+				run.Inconclusive("beyond-uint64 trial: " + inc)
+			default:
+				run.Distinct("beyond-uint64 " + legName)
+			}
+		}
+		for _, legName := range []string{"adapter", "nats"} {
+			seen := make(chan uint64, 16)
+			onReq := func(frame []byte) {
+				if len(frame) < 4 {
+					return
+				}
+				if pairs, _, err := wire.DecodeHeaders(frame[4:]); err == nil {
+					m, _ := wire.PairsToMap(pairs)
+					if op, err := strconv.ParseUint(m["_opid"], 10, 64); err == nil {
+						select {
+						case seen <- op:
+						default:
+						}
+					}
+				}
+			}
+			var leg rig.MuxLeg
+			if legName == "adapter" {
+				a := rig.NewAdapterLeg()
+				a.St.OnFrame = onReq
+				leg = a
+			} else {
+				nl := rig.NewNatsLeg(nats)
+				nl.OnRequest = func(_ string, f []byte) { onReq(f) }
+				leg = nl
+			}
+			bad, inc, skipped := rig.RegistryBusyTrial(leg, seen)
+			run.Eval(1)
+			switch {
+			case skipped:
+				run.Set("registry_busy_trial", "skipped: the tree under test has no VerifLockRegistry hook")
+			case bad != "":
+				run.Violation("C01:registry-busy:"+legName+":response-lost", bad, nil)
+			case inc != "":
+				run.Inconclusive("registry-busy trial: " + inc)
+			default:
+				run.Distinct("registry-busy " + legName)
+			}
 		}
 		for k := 0; k < 3; k++ {
 			dr := rig.DuplicateContextTrial(nats)
